@@ -4,7 +4,9 @@ pub mod plans;
 
 #[cfg(feature = "eyepatch")]
 pub const FLAVOUR: &str = "eyep";
-#[cfg(all(feature = "std", not(feature = "eyepatch")))]
+#[cfg(all(feature = "std", not(feature = "eyepatch"), feature = "dbgflavour"))]
+pub const FLAVOUR: &str = "dbg";
+#[cfg(all(feature = "std", not(feature = "eyepatch"), not(feature = "dbgflavour")))]
 pub const FLAVOUR: &str = "all";
 #[cfg(all(not(feature = "std"), not(feature = "eyepatch")))]
 pub const FLAVOUR: &str = "nostd";
